@@ -65,6 +65,12 @@ var c03std = []error{ociregistry.ErrBlobUnknown, ociregistry.ErrManifestUnknown,
 // when it travels as POST + PUT, and none when it is a direct PushBlob. So for such a
 // repository NAME_UNKNOWN, BLOB_UNKNOWN and MANIFEST_UNKNOWN count as the same answer,
 // as does an empty listing.
+// repositories in play: the one with content, an absent one, and a valid name made of
+// the words the URL router looks for
+var c03repos = []string{"a/b", "c", "x/blobs/uploads/tags/manifests"}
+
+var c03twoCalls bool
+
 var c03emptyRepo bool
 
 // c03emptyAnswerOK: the current call is a listing, for which "unknown repository" on one
@@ -143,7 +149,7 @@ func c03compareReaders(rd, rh ociregistry.BlobReader, errD, errH error, label st
 func c03sameState(w *c03world, a, b *ocimem.Registry) bool {
 	ctx := context.Background()
 	ok := true
-	for _, repo := range []string{"a/b", "c"} {
+	for _, repo := range c03repos {
 		for _, d := range []ociregistry.Digest{w.bdig, w.b2dig} {
 			da, ea := a.ResolveBlob(ctx, repo, d)
 			db, eb := b.ResolveBlob(ctx, repo, d)
@@ -165,6 +171,7 @@ func VerifC03_OneHop() {
 	w := &c03world{blob: verifBytes("blob", 1), blob2: []byte("zz"), man: []byte("manifest-bytes")}
 	w.bdig, w.b2dig, w.mdig = digest.FromBytes(w.blob), digest.FromBytes(w.blob2), digest.FromBytes(w.man)
 	calls := verifParam("calls", 1)
+	c03twoCalls = calls > 1
 	withContent := verifBool("withContent")
 	opts := &Options{}
 	var regD, regS *ocimem.Registry
@@ -202,7 +209,11 @@ func VerifC03_OneHop() {
 
 func c03call(w *c03world, regD, regS *ocimem.Registry, c ociregistry.Interface, sfx string) {
 	ctx := context.Background()
-	repo := []string{"a/b", "c"}[verifChoose("repo"+sfx, 2)]
+	nrepos := len(c03repos)
+	if c03twoCalls {
+		nrepos = 2 // two-call histories: the existing and the missing repository
+	}
+	repo := c03repos[verifChoose("repo"+sfx, nrepos)]
 	c03emptyRepo = c03repoEmpty(w, regD, repo) && c03repoEmpty(w, regS, repo)
 	c03emptyAnswerOK = false
 	digs := []ociregistry.Digest{w.bdig, w.b2dig, w.mdig}
@@ -216,6 +227,9 @@ func c03call(w *c03world, regD, regS *ocimem.Registry, c ociregistry.Interface, 
 	case 1:
 		o0, o1 := verifInt64("o0"), verifInt64("o1")
 		verifAssume(o0 >= 0 && o0 < 100 && o1 < 100 && o1 >= -1)
+		if c03twoCalls {
+			verifAssume(o0 < 4 && o1 < 4) // the blob has one byte
+		}
 		if sfx != "" {
 			verifAssume(o0 != o1) // known finding F10 is reported for the first call only
 		}
@@ -270,7 +284,7 @@ func c03call(w *c03world, regD, regS *ocimem.Registry, c ociregistry.Interface, 
 			verifAssert(d1.Digest == d2.Digest && d1.Size == d2.Size, "PushBlob-same-descriptor")
 		}
 	case 8:
-		from := []string{"a/b", "c"}[verifChoose("from"+sfx, 2)]
+		from := c03repos[verifChoose("from"+sfx, nrepos)]
 		// (the source repository may be the content-less one)
 		c03emptyRepo = c03emptyRepo || (c03repoEmpty(w, regD, from) && c03repoEmpty(w, regS, from))
 		d1, e1 := regD.MountBlob(ctx, from, repo, dig)
